@@ -30,9 +30,6 @@ def _s(v):
 
 
 def _fresh(interp, base):
-    if interp.st.no_fork:
-        # a fresh piece would have to be a function of the bound variable
-        raise Unsupported('string decomposition inside a quantifier body')
     return interp.st.fresh_str(base)
 
 
@@ -422,26 +419,35 @@ def _char_class_re(chars):
 
 
 def _strip(interp, s, chars, left, right):
+    """s.strip/lstrip/rstrip(chars): the result is an uninterpreted function of s (so that equal
+    arguments give syntactically equal results), defined by: s == a . r . b, a and b consist of
+    characters of `chars` only, r neither starts (left) nor ends (right) with such a character."""
     st = interp.st
     t = _s(s)
     if chars is None:
         raise Unsupported('strip() of Unicode white space (bounded stand-in only)')
     if isinstance(chars, Sym) or not chars:
         raise Unsupported('strip with symbolic character set')
-    cls = _char_class_re(chars)
-    lens = []
-    a, m, b = decompose(interp, t, [None, None, None], 'strip')
-    if left:
-        st.assume(z3.InRe(a, cls))
-        st.assume(z3.And(*[z3.Not(z3.PrefixOf(z3.StringVal(c), m)) for c in chars]))
-    else:
-        st.assume(z3.Length(a) == 0)
-    if right:
-        st.assume(z3.InRe(b, cls))
-        st.assume(z3.And(*[z3.Not(z3.SuffixOf(z3.StringVal(c), m)) for c in chars]))
-    else:
-        st.assume(z3.Length(b) == 0)
-    return wrap(m)
+    kind = ('l' if left else '') + ('r' if right else '')
+    f = z3.Function('str.%sstrip[%r]' % ({'lr': '', 'l': 'l', 'r': 'r'}[kind], chars), z3.StringSort(),
+                    z3.StringSort())
+    r = f(t)
+    key = ('__strip__', kind, chars, t.get_id())
+    if key not in st.ghost:
+        st.ghost[key] = t
+        cls = _char_class_re(chars)
+        a = _fresh(interp, 'strip.l') if left else z3.StringVal('')
+        b = _fresh(interp, 'strip.r') if right else z3.StringVal('')
+        st.assume(t == _cat([a, r, b]))
+        if left:
+            st.assume(z3.InRe(a, cls))
+            st.assume(z3.And(*[z3.Not(z3.PrefixOf(z3.StringVal(c), r)) for c in chars]))
+        if right:
+            st.assume(z3.InRe(b, cls))
+            st.assume(z3.And(*[z3.Not(z3.SuffixOf(z3.StringVal(c), r)) for c in chars]))
+        _decomps(interp, t).append([x for x in (a, r, b) if not (z3.is_string_value(x) and x.as_string() == '')])
+        note_concat(interp, t, [a, r, b])
+    return wrap(r)
 
 
 def _upred(interp, name, s):
